@@ -262,6 +262,11 @@ def build_and_audit(ctx, proof_modules, audit_file, theorems):
         good = good and not bad
     if rc != 0:
         ctx.obligation(f"lean {audit_file}", False, out[-1500:])
+    if not ctx.quick:
+        # independent re-check of the compiled .olean files by the toolchain's external checker
+        p = subprocess.run(["lake", "env", "leanchecker", *proof_modules], cwd=LEAN, capture_output=True, text=True, timeout=3000)
+        ctx.obligation("leanchecker " + " ".join(proof_modules), p.returncode == 0, (p.stdout + p.stderr)[-800:])
+        good = good and p.returncode == 0
     return good and not hits
 
 
